@@ -583,7 +583,12 @@ func (w *world) execOp(t int, op *Op, in *slotVal) (res opResult, out slotVal) {
 		in.pv.muts = append(in.pv.muts, op.Seed)
 		return
 	case opCorrupt:
-		c := corruptCopy(in.b, op.Seed)
+		var c []byte
+		if op.N == 1 {
+			c = repadCopy(in.b, op.Seed)
+		} else {
+			c = corruptCopy(in.b, op.Seed)
+		}
 		out = slotVal{def: true, isB: true, b: c, bc: copyBytesPhys(c)}
 		w.fired[t].corrupt++
 		return
@@ -700,6 +705,47 @@ func corruptCopy(b []byte, seed uint64) []byte {
 			c[0] ^= 0xC0
 		}
 	}
+	return c
+}
+
+// repadCopy returns a copy of datagram b in which one packet has been given
+// RFC 3550 padding (P bit set, 4k pad octets whose last one is the count,
+// length field adjusted): what a middlebox or an SRTCP layer may legitimately
+// do to a datagram in flight.  Falls back to a plain copy if b does not parse.
+func repadCopy(b []byte, seed uint64) []byte {
+	r := &rng{s: seed}
+	var starts, ends []int
+	for off := 0; off+4 <= len(b); {
+		n := (int(b[off+2])<<8 | int(b[off+3]) + 1) * 4
+		if off+n > len(b) {
+			break
+		}
+		starts = append(starts, off)
+		ends = append(ends, off+n)
+		off += n
+	}
+	if len(starts) == 0 || ends[len(ends)-1] != len(b) {
+		return append(make([]byte, 0, len(b)+r.intn(5)), b...)
+	}
+	i := len(starts) - 1
+	if r.chance(3) {
+		i = r.intn(len(starts))
+	}
+	k := 1 + r.intn(3)
+	words := (ends[i]-starts[i])/4 - 1 + k
+	if b[starts[i]]&0x20 != 0 || words > 0xFFFF {
+		return append(make([]byte, 0, len(b)+r.intn(5)), b...)
+	}
+	c := make([]byte, 0, len(b)+4*k+r.intn(5))
+	c = append(c, b[:ends[i]]...)
+	for j := 0; j < 4*k-1; j++ {
+		c = append(c, r.u8())
+	}
+	c = append(c, byte(4*k))
+	c = append(c, b[ends[i]:]...)
+	c[starts[i]] |= 0x20
+	c[starts[i]+2] = byte(words >> 8)
+	c[starts[i]+3] = byte(words)
 	return c
 }
 
